@@ -47,6 +47,7 @@ trait Sp<T: Elt>: VecX<T> + Copy {
     fn k_is_approx_zero(self) -> bool;
     fn k_is_close_to(self, x: T) -> bool;
     fn k_angle(self, v: Self) -> T;
+    fn k_angle_deg(self, v: Self) -> T;
     fn k_reflected(self, n: Self) -> Self;
     fn k_refracted(self, n: Self, eta: T) -> Self;
     fn k_face_forward(self, incident: Self, reference: Self) -> Self;
@@ -69,6 +70,8 @@ macro_rules! impl_sp {
             fn k_is_approx_zero(self) -> bool { $V::is_approx_zero(self) }
             fn k_is_close_to(self, x: T) -> bool { $V::is_magnitude_close_to(self, x) }
             fn k_angle(self, v: Self) -> T { $V::angle_between(self, v) }
+            #[allow(deprecated)]
+            fn k_angle_deg(self, v: Self) -> T { $V::angle_between_degrees(self, v) }
             fn k_reflected(self, n: Self) -> Self { $V::reflected(self, n) }
             fn k_refracted(self, n: Self, eta: T) -> Self { $V::refracted(self, n, eta) }
             fn k_face_forward(self, incident: Self, reference: Self) -> Self { $V::face_forward(self, incident, reference) }
@@ -1151,6 +1154,37 @@ fn homog_q(sub: &mut Sub, cfg: &Config, idx: u64) {
     });
 }
 
+/// homogenisation on native element types with inputs whose quotients are exact in the type:
+/// (a w, b w, c w, w) -> (a, b, c, 1) exactly, for integers (any w != 0) and floats
+macro_rules! homog_native_case {
+    ($sub:expr, $cfg:expr, $idx:expr, $T:ty, $ty:expr, $conv:expr) => {{
+        let mut rng = Rng::for_case(concat!("homog_native/", $ty), $cfg.case_seed(), $idx);
+        let conv = $conv;
+        let w: i64 = match $idx % 6 { 0 => 1, 1 => -1, 2 => rng.range_i64(2, 120), 3 => -rng.range_i64(2, 120), _ => rng.nonzero_i64(1000) };
+        let abc = [rng.range_i64(-900, 900), rng.range_i64(-900, 900), rng.range_i64(-900, 900)];
+        let v: Vec4<$T> = Vec4 { x: conv(abc[0] * w), y: conv(abc[1] * w), z: conv(abc[2] * w), w: conv(w) };
+        let want: [$T; 4] = [conv(abc[0]), conv(abc[1]), conv(abc[2]), conv(1)];
+        let mut h = H64::new();
+        h.s($ty).i(w as i128).i(abc[0] as i128).i(abc[1] as i128).i(abc[2] as i128);
+        $sub.saw("Vec4::homogenized");
+        $sub.saw("Vec4::homogenize");
+        let got = guarded(|| { let a = v.homogenized(); let mut b = v; b.homogenize(); ([a.x, a.y, a.z, a.w], [b.x, b.y, b.z, b.w]) });
+        match got {
+            Err(e) => { let vio = violation(PROP, $sub, "Vec4::homogenized", $ty, "panic", "exact_quotients", format!("v = {:?}: panicked: {}", v, e), $cfg.case_seed(), $idx); $sub.violated(vio); }
+            Ok((a, b)) => {
+                if a != want || b != want {
+                    let (api, g) = if a != want { ("Vec4::homogenized", a) } else { ("Vec4::homogenize", b) };
+                    let vio = violation(PROP, $sub, api, $ty, "wrong_value", "exact_quotients", format!("v = {:?} (= ({}, {}, {}, 1) * {}): result {:?}, expected {:?}", v, abc[0], abc[1], abc[2], w, g, want), $cfg.case_seed(), $idx);
+                    $sub.violated(vio);
+                } else {
+                    $sub.sample(|| format!("[{}] {:?} -> {:?}", $ty, v, a));
+                    $sub.held(h.get(), w != 1);
+                }
+            }
+        }
+    }};
+}
+
 // ------------------------------------------------------------------ float tiers
 
 fn fdotf(a: &[f64], b: &[f64]) -> f64 {
@@ -1281,6 +1315,9 @@ fn angle_float<T: Fl, V: Sp<T>>(sub: &mut Sub, cfg: &Config, idx: u64) {
         ensure!(cx, a >= 0.0 && a <= T::PI_T, "angle_between", "outside_0_pi", "{}: angle_between = {:e}", inp(), a);
         let tol = 128.0 * eps;
         ensure!(cx, (a.cos() - c_ref).abs() <= tol, "angle_between", "cosine_mismatch", "{}: angle_between = {:e} (cos = {:e}), u^.v^ = {:e}, tolerance {:e} ({})", inp(), a, a.cos(), c_ref, tol, class);
+        // the deprecated degrees alias is the same angle, converted
+        let ad = cx.call("angle_between_degrees", &inp, || vfrom::<T, V>(&u).k_angle_deg(vfrom(&v)))?.f();
+        ensure!(cx, ad.is_finite() && (ad - a.to_degrees()).abs() <= 256.0 * eps * 180.0, "angle_between_degrees", "not_the_angle_in_degrees", "{}: angle_between_degrees = {:e}, angle_between = {:e} rad = {:e} degrees ({})", inp(), ad, a, a.to_degrees(), class);
         Ok(true)
     });
 }
@@ -1604,6 +1641,16 @@ fn main() {
         let n = cfg.n(10_000, 300_000);
         let proto = Sub::new("homog_q", "random rational Vec4 with w != 0 (w = 1, -1, random): homogenized / homogenize give w = 1 exactly and x,y,z with out_i * w = v_i; the result is_point; non-trivial = w != 1").with_floor(n / 4).require(&["Vec4::homogenized", "Vec4::homogenize", "Vec4::is_point"]);
         push_sub(&mut rep, run_cases(&cfg, proto, n, |s, i| homog_q(s, &cfg, i)));
+    }
+    {
+        let nh = cfg.n(400, 40_000);
+        let proto = Sub::new("homog_native", "Vec4<i32>, Vec4<i64>, Vec4<f32>, Vec4<f64> of the form (a w, b w, c w, w) with integers |a|,|b|,|c| <= 900 and w in {1, -1, +-2..120, +-1..1000} (every product exact in the type): homogenized / homogenize must return (a, b, c, 1) exactly; non-trivial = w != 1").with_floor(nh * 3).require(&["Vec4::homogenized", "Vec4::homogenize"]);
+        push_sub(&mut rep, run_cases(&cfg, proto, nh, |s, i| {
+            homog_native_case!(s, &cfg, i, i32, "i32", |k: i64| k as i32);
+            homog_native_case!(s, &cfg, i, i64, "i64", |k: i64| k);
+            homog_native_case!(s, &cfg, i, f32, "f32", |k: i64| k as f32);
+            homog_native_case!(s, &cfg, i, f64, "f64", |k: i64| k as f64);
+        }));
     }
     {
         let n = cfg.n(2300, 23_000);
